@@ -9,10 +9,12 @@
    validate_for_operation succeeds.  (These operations are part of [abstract_op], so the
    history-level refinement theorem covers them; the statements below spell out the
    property's sentences.)
-   OBLIGATIONS: C10_constructor_rejects_iff_below_4 C10_new_gives_empty_valid_map C10_checked_calls_equal_basic_calls C10_get_many_spec C10_never_integrity_error C10_nonvacuous *)
+   OBLIGATIONS: C10_constructor_rejects_iff_below_4 C10_new_gives_empty_valid_map C10_checked_calls_equal_basic_calls C10_get_many_spec C10_never_integrity_error C10_nonvacuous C10_default_capacity_accepted C10_batch_is_iterated_insert C10_outputs_never_integrity *)
 From BPT Require Import Common.Base Common.AMap Rust.Arena Rust.Tree Rust.Heap Rust.Readers Rust.Run
      Rust.InvDefs Rust.Repr Rust.Spec Rust.ReachDefs Rust.MiscProofs Rust.ValidAccept Rust.ValidSound
      Rust.Reach Props.Reachable.
+From BPT Require Extra.RustExtra2.
+From BPT Require Extra.RustExtra.
 
 Theorem C10_constructor_rejects_iff_below_4 : forall (V : Type) (c : nat), c < 4 <-> b_new V c = None.
 Proof. intros V c. apply new_rejects. Qed.
@@ -98,3 +100,23 @@ Proof.
 Qed.
 
 Definition C10_nonvacuous := ReachExamples.ex_agree.
+
+(* Default / with_default_capacity (capacity 16) always succeed *)
+Theorem C10_default_capacity_accepted : forall (V : Type), exists b, b_new V DEFAULT_CAPACITY = Some b /\ Inv b /\ contents (root b) = [].
+Proof. exact RustExtra.default_capacity_accepted. Qed.
+
+(* batch_insert is, in the specification, exactly the corresponding insert calls *)
+Theorem C10_batch_is_iterated_insert : forall (V : Type) (items : list (key * V)) (m : AMap.amap V),
+  let r := spec_run m (map (fun kv => OInsert (fst kv) (snd kv)) items) in
+  fst (spec_batch m items) = fst r /\ map (@UOpt V) (snd (spec_batch m items)) = snd r.
+Proof. exact RustExtra.batch_is_iterated_insert. Qed.
+
+(* no output of any history carries an integrity error, and every validator call accepts (no abstract_op hypothesis) *)
+Theorem C10_outputs_never_integrity : forall (V:Type) c (ops:list (op V)), 4 <= c -> fits (ops_weight ops) ->
+  exists b0, b_new V c = Some b0 /\ forall x, In x (snd (run b0 ops)) ->
+    match x with
+    | URes _ (Some (DataIntegrity _)) | UResOpt _ (Some (DataIntegrity _))
+    | UResList _ (Some (DataIntegrity _)) | UResOptList _ (Some (DataIntegrity _)) => False
+    | UValidate ci cid vfo => ci = true /\ cid = None /\ vfo = None
+    | _ => True end.
+Proof. exact RustExtra2.outputs_never_integrity. Qed.
